@@ -20,11 +20,63 @@ pub struct Backlog {
     pub ticks: u8,
 }
 
+/// Repeated state updates: the application submits the SAME small payload several times per tick (what a game does
+/// with a position that has not changed), TimeSensitive or not, on one channel or two; the link is loss-free.
+#[derive(Clone, Debug, serde::Serialize, serde::Deserialize)]
+pub struct Repeats {
+    pub seed: u64,
+    pub ticks: u8,
+    pub per_tick: u8,
+    pub size: u8,
+    pub mode: u8,
+    pub two_channels: bool,
+    pub dt_ms: u8,
+}
+
 #[derive(Clone, Debug, serde::Serialize, serde::Deserialize)]
 #[serde(untagged)]
 pub enum Case {
     Pair(PairScenario),
     Backlog { backlog: Backlog },
+    Repeats { repeats: Repeats },
+}
+
+fn run_repeats(r: &Repeats) -> CaseResult {
+    let dir = DirCfg { pkt_win_log2: 12, frm_win_log2: 12, pkt_base: (r.seed as u32) & PKT_MASK, frm_base: (r.seed >> 32) as u32, alloc_limit: 1_000_000, bw_limit: 10_000_000 };
+    let sc = PairScenario { dirs: [dir.clone(), dir], keepalive_ms: Some(1000), seed: r.seed, zero_ch: 0, zero_mode: 1, links: [LinkCfg { latency_us: 2000, fates: vec![] }, LinkCfg { latency_us: 2000, fates: vec![] }], ticks: vec![], tail: None, premature_acks: Vec::new() };
+    let mut sim = SimPair::new(&sc);
+    sim.record_stats = false;
+    let size = r.size.max(1) as usize;
+    let payload: Vec<u8> = (0..size).map(|i| (r.seed >> (i % 8)) as u8).collect();
+    let idle = EpAct { step: true, sends: Vec::new(), flushes: 1 };
+    let mut accepted: u64 = 0;
+    for _ in 0..r.ticks.max(1) {
+        sim.run_tick(&Tick { dt_us: r.dt_ms.max(1) as u64 * 1000, acts: [idle.clone(), idle.clone()] });
+        for k in 0..r.per_tick.max(2) {
+            let before = sim.hc[0].send_buffer_size() as u64;
+            sim.hc[0].send(payload.clone().into_boxed_slice(), if r.two_channels { k % 2 } else { 0 }, mode_of(r.mode));
+            accepted += size as u64;
+            let after = sim.hc[0].send_buffer_size() as u64;
+            // (stale TimeSensitive packets are discarded lazily, never by send(): the call adds exactly its payload)
+            if after != before + size as u64 {
+                return CaseResult::fail("oracle:c20:repeats:send_adds_its_payload", format!("send() of {size} bytes took send_buffer_size() from {before} to {after}"));
+            }
+        }
+        sim.flush(0);
+    }
+    // everything submitted is transmitted or discarded as stale, and acknowledged, within a few seconds of a loss-free link
+    for _ in 0..400 {
+        sim.run_tick(&Tick { dt_us: 10_000, acts: [idle.clone(), idle.clone()] });
+    }
+    let end = sim.hc[0].send_buffer_size();
+    let pending = sim.hc[0].is_send_pending();
+    if end != 0 && !pending {
+        return CaseResult::fail(
+            "oracle:c20:repeats:nonzero_when_nothing_is_pending",
+            format!("{accepted} bytes were accepted in {} identical packets of {size} bytes (mode {}); four seconds of loss-free exchange later the sender reports nothing pending, yet send_buffer_size() = {end}", accepted / size as u64, r.mode % 4),
+        );
+    }
+    CaseResult::ok(true, vec!["repeated_identical_payloads"])
 }
 
 fn run_backlog(b: &Backlog) -> CaseResult {
@@ -79,6 +131,10 @@ impl Check for C20 {
                 if sc.seed % 4000 == 1 {
                     return Case::Backlog { backlog: Backlog { seed: sc.seed, packets: 46 + ((sc.seed >> 20) % 30) as u16, size: (65536 * FRAG) as u32 - ((sc.seed >> 40) % 3000) as u32, mode: (sc.seed >> 13) as u8 % 4, ticks: ((sc.seed >> 50) % 12) as u8 } };
                 }
+                // one case in forty: the same payload again and again (every other payload in these checks is unique)
+                if sc.seed % 40 == 2 {
+                    return Case::Repeats { repeats: Repeats { seed: sc.seed, ticks: 5 + ((sc.seed >> 8) % 60) as u8, per_tick: 2 + ((sc.seed >> 16) % 4) as u8, size: 1 + ((sc.seed >> 24) % 40) as u8, mode: ((sc.seed >> 32) % 6) as u8 % 4, two_channels: (sc.seed >> 40) & 3 == 0, dt_ms: [1u8, 5, 16, 50][((sc.seed >> 44) % 4) as usize] } };
+                }
                 Case::Pair(sc)
             })
             .boxed()
@@ -105,7 +161,7 @@ impl Check for C20 {
     }
 
     fn rule(&self) -> String {
-        "case = SimPair scenario (all packets >= 4 bytes) with all modes and sizes, ack loss / delay, TimeSensitive drops, window and allocation stalls, followed by a fair phase; a handful of cases per run queue 46-75 packets of the maximum packet size (more than 4 GiB in all; zero pages, never written) and compare send_buffer_size() with the exact total after every send(); one scenario in four also hands the senders forged ack frames without groups whose packet window base names a packet that has not been sent yet (1..3, rarely up to 3000, beyond the sender's next id - an acknowledgement of nothing, which must stay without effect also when that id comes into use). Model fed only by send() calls, by the sender's emitted data frames (which packet ids exist) and by the ack frames handed to the sender (accepted packet-window bases): with A = payload bytes of packets whose id an accepted base has passed, D = bytes of stale TimeSensitive submissions that were certainly discarded (a later submission has been emitted) and S = bytes of stale TimeSensitive submissions not yet emitted whose fate is not observable, submitted - A - D - S <= send_buffer_size() <= submitted - A - D at every snapshot (after every endpoint step and after every batch of sends / flushes), and exactly 0 at quiescence. Non-trivial = at least one TimeSensitive packet was discarded and at least one ack released two or more packets at once.".into()
+        "case = SimPair scenario (all packets >= 4 bytes) with all modes and sizes, ack loss / delay, TimeSensitive drops, window and allocation stalls, followed by a fair phase; one case in forty submits the SAME small payload two to five times per tick (state updates that have not changed; TimeSensitive in half of them) over a loss-free link: every send() adds exactly its payload, and when nothing is pending any more the value is 0; a handful of cases per run queue 46-75 packets of the maximum packet size (more than 4 GiB in all; zero pages, never written) and compare send_buffer_size() with the exact total after every send(); one scenario in four also hands the senders forged ack frames without groups whose packet window base names a packet that has not been sent yet (1..3, rarely up to 3000, beyond the sender's next id - an acknowledgement of nothing, which must stay without effect also when that id comes into use). Model fed only by send() calls, by the sender's emitted data frames (which packet ids exist) and by the ack frames handed to the sender (accepted packet-window bases): with A = payload bytes of packets whose id an accepted base has passed, D = bytes of stale TimeSensitive submissions that were certainly discarded (a later submission has been emitted) and S = bytes of stale TimeSensitive submissions not yet emitted whose fate is not observable, submitted - A - D - S <= send_buffer_size() <= submitted - A - D at every snapshot (after every endpoint step and after every batch of sends / flushes), and exactly 0 at quiescence. Non-trivial = at least one TimeSensitive packet was discarded and at least one ack released two or more packets at once.".into()
     }
 
     fn assumptions(&self) -> Vec<String> {
@@ -116,6 +172,7 @@ impl Check for C20 {
         let sc = match case {
             Case::Pair(sc) => sc,
             Case::Backlog { backlog } => return run_backlog(backlog),
+            Case::Repeats { repeats } => return run_repeats(repeats),
         };
         let mut sc = sc.clone();
         force_identity_sizes(&mut sc);
